@@ -1,7 +1,7 @@
 #!/bin/bash
 # validate_seed2.sh <PROP> <k> <newid>: confirm a round-2 seeded change in its scratch worktree, then keep it under /verif/seeded/<newid>
 P=$1; K=$2; NEW=$3
-WT=/tmp/wt2_$P; OUT=/tmp/out2_$P/mutant$K
+R=${ROUND:-2}; WT=/tmp/wt${R}_$P; OUT=/tmp/out${R}_$P/mutant$K
 cd $WT || exit 9
 git checkout -q -- . ; git clean -fdq -e target
 export CARGO_NET_OFFLINE=true
@@ -21,9 +21,9 @@ if [ $CLEAN -eq 0 ] && [ $BUILD -eq 0 ] && [ $SUITE -eq 0 ] && [ $MUT -ne 0 ]; t
 import json,sys,subprocess
 m=json.load(open(sys.argv[1]))
 h=subprocess.run(['git','-C','/repo','log','-1','--format=%h'],capture_output=True,text=True).stdout.strip()
-m['confirmed']={"by":"main session, scratch worktree /tmp/wt2_%s at /repo commit %s (removed afterwards)"%(sys.argv[3],h),
+m['confirmed']={"by":"main session, scratch worktree /tmp/wt_%s at /repo commit %s (removed afterwards)"%(sys.argv[3],h),
   "ran":"vx/validate_seed2.sh: demo on clean tree; git apply patch.diff; cargo build --offline; cargo test --offline (full suite); demo again; git checkout",
-  "round":2,"results":{"demo_passes_without_change":True,"compiles":True,"suite_passes_with_change":True,"demo_fails_with_change":True}}
+  "round":int(__import__("os").environ.get("ROUND","2")),"results":{"demo_passes_without_change":True,"compiles":True,"suite_passes_with_change":True,"demo_fails_with_change":True}}
 json.dump(m,open(sys.argv[2],'w'),indent=1)
 PY
   echo "KEPT /verif/seeded/$NEW"
